@@ -659,6 +659,7 @@ def tiny_line(rng, i):
 
 
 TINY = {"tri": (tiny_tri, 9), "tet": (tiny_tet, 6), "line": (tiny_line, 5)}
+NRANDOM_TINY = {"tri": 4, "tet": 3, "line": 4}      # totals 13 / 9 / 9: coprime to the 16 shards
 
 
 def renumbered(rng, mesh, kind):
@@ -671,7 +672,7 @@ def exhaustive_case(kind):
 
     def run(ctx, k):
         rng = ctx.rng()
-        nvariants = ndirected + 3                      # + seeded random tiny meshes
+        nvariants = ndirected + NRANDOM_TINY[kind]     # + seeded random tiny meshes
         i = k % nvariants
         mesh, name = fn(rng, i)
         variant = k // nvariants
@@ -1044,3 +1045,23 @@ FAMILIES = [
     Family("tolerance", tolerance_case, quick=16, thorough=640),
     Family("theta", theta_case, quick=12, thorough=360),
 ]
+
+
+def _timed(fam):
+    import os
+    import time
+    if os.environ.get("C13_PROFILE") != "1":
+        return fam
+    fn = fam.fn
+
+    def wrapped(ctx, k):
+        t0 = time.time()
+        try:
+            return fn(ctx, k)
+        finally:
+            ctx.reached("cpu-ms:" + fam.name, int(1000 * (time.time() - t0)))
+    fam.fn = wrapped
+    return fam
+
+
+FAMILIES = [_timed(f) for f in FAMILIES]
